@@ -21,9 +21,8 @@ var Poll = logical.TableValuedFunctionDescription{
 
 		if _, ok := args["poll_interval"]; ok {
 			outArgs["poll_interval"] = logical.TableValuedFunctionTypecheckedArgument{
-				Argument: args["poll_interval"].(*logical.TableValuedFunctionArgumentValueDescriptor).
-					Typecheck(ctx, env, logicalEnv.WithRecordUniqueVariableNames(mapping)),
-				// TODO: Check that this is actually a duration.
+				Argument: args["poll_interval"].(*logical.TableValuedFunctionArgumentValueExpression).
+					Typecheck(ctx, env, logicalEnv),
 			}
 		}
 
@@ -39,8 +38,10 @@ var Poll = logical.TableValuedFunctionDescription{
 				},
 				"poll_interval": {
 					Required:                               false,
-					TableValuedFunctionArgumentMatcherType: physical.TableValuedFunctionArgumentTypeDescriptor,
-					Descriptor:                             &logical.TableValuedFunctionArgumentMatcherDescriptor{},
+					TableValuedFunctionArgumentMatcherType: physical.TableValuedFunctionArgumentTypeExpression,
+					Expression: &logical.TableValuedFunctionArgumentMatcherExpression{
+						Type: octosql.Duration,
+					},
 				},
 			},
 			OutputSchema: func(ctx context.Context, env physical.Environment, logicalEnv logical.Environment, args map[string]logical.TableValuedFunctionTypecheckedArgument) (physical.Schema, map[string]string, error) {
